@@ -42,7 +42,12 @@ func checkC08(p *Prog, r *Report) {
 	// canonical order in String, order-insensitive reader
 	oa := &orderAnalysis{p: p, r: r, tainted: map[*ssa.Function]bool{}}
 	_, nUn, nSorts := oa.checkFunction(f)
-	r.floor("unordered loops in URL.String", nUn, 3)
+	for _, g := range stringHelpers(f) {
+		_, u2, s2 := oa.checkFunction(g)
+		nUn += u2
+		nSorts += s2
+	}
+	r.floor("unordered loops in URL.String", nUn, 2)
 	r.floor("sorts in URL.String", nSorts, 2)
 	checkC08FieldsAccepted(p, r)
 	checkFieldsDefault(p, r, "C08")
@@ -84,6 +89,33 @@ var (
 type escAnalysis struct {
 	p    *Prog
 	memo map[ssa.Value]*escClass
+	// when a helper of the package is analysed for one call site: its
+	// parameters stand for the caller's arguments
+	args  map[*ssa.Parameter]ssa.Value
+	outer *escAnalysis
+	depth int
+}
+
+// inCallee: an analysis of g's values for the call c made in the context ea.
+func (ea *escAnalysis) inCallee(c *ssa.Call, g *ssa.Function) *escAnalysis {
+	sub := &escAnalysis{p: ea.p, memo: map[ssa.Value]*escClass{}, args: map[*ssa.Parameter]ssa.Value{}, outer: ea, depth: ea.depth + 1}
+	for i, prm := range g.Params {
+		if i < len(c.Common().Args) {
+			sub.args[prm] = c.Common().Args[i]
+		}
+	}
+	return sub
+}
+
+// returnsOf: the first results of g's returns.
+func returnsOf(g *ssa.Function) []ssa.Value {
+	var out []ssa.Value
+	for _, b := range g.Blocks {
+		if ret, ok := b.Instrs[len(b.Instrs)-1].(*ssa.Return); ok && len(ret.Results) > 0 {
+			out = append(out, ret.Results[0])
+		}
+	}
+	return out
 }
 
 func meet(a, b *escClass) *escClass {
@@ -121,6 +153,10 @@ func (ea *escAnalysis) classOf(v ssa.Value) *escClass {
 func (ea *escAnalysis) compute(v ssa.Value) *escClass {
 	p := ea.p
 	switch x := v.(type) {
+	case *ssa.Parameter:
+		if a, ok := ea.args[x]; ok && ea.outer != nil {
+			return ea.outer.classOf(a)
+		}
 	case *ssa.Const:
 		s, ok := constString(x)
 		if !ok {
@@ -143,6 +179,19 @@ func (ea *escAnalysis) compute(v ssa.Value) *escClass {
 		}
 		if (calleeIs(x, "strings", "TrimSuffix") || calleeIs(x, "strings", "TrimPrefix")) && len(x.Common().Args) == 2 {
 			return ea.classOf(x.Common().Args[0])
+		}
+		// a string-building helper of the package: the class of what it returns,
+		// its parameters standing for the arguments of this call
+		if g := x.Common().StaticCallee(); g != nil && smallHelper(g) && ea.depth < 3 {
+			sub := ea.inCallee(x, g)
+			out := &escClass{path: true, query: true}
+			rs := returnsOf(g)
+			for _, rv := range rs {
+				out = meet(out, sub.classOf(rv))
+			}
+			if len(rs) > 0 {
+				return out
+			}
 		}
 		return &escClass{why: "the result of " + p.describe(x) + " (" + p.pos(x.Pos()) + ") is used unescaped"}
 	case *ssa.BinOp:
@@ -198,6 +247,10 @@ func (ea *escAnalysis) listClass(v ssa.Value) *escClass {
 	ea.memo[v] = nil
 	out := func() *escClass {
 		switch x := v.(type) {
+		case *ssa.Parameter:
+			if a, ok := ea.args[x]; ok && ea.outer != nil {
+				return ea.outer.listClass(a)
+			}
 		case *ssa.Slice:
 			if al, ok := x.X.(*ssa.Alloc); ok {
 				// a literal: its element stores
@@ -311,10 +364,19 @@ func checkC08Escape(p *Prog, r *Report, f *ssa.Function) {
 // nameTemplate: the text up to and including the first '=' of the emitted piece,
 // with escaped dynamic parts written as '*'.
 func nameTemplate(v ssa.Value, depth int) (string, bool) {
+	return nameTemplateEnv(v, depth, nil)
+}
+
+func nameTemplateEnv(v ssa.Value, depth int, env map[*ssa.Parameter]ssa.Value) (string, bool) {
 	if depth > 12 {
 		return "", false
 	}
 	switch x := v.(type) {
+	case *ssa.Parameter:
+		if a, ok := env[x]; ok {
+			return nameTemplateEnv(a, depth+1, nil)
+		}
+		return "", false
 	case *ssa.Const:
 		s, ok := constString(x)
 		if !ok {
@@ -329,29 +391,42 @@ func nameTemplate(v ssa.Value, depth int) (string, bool) {
 		if calleeIs(x, "net/url", "QueryEscape") || calleeIs(x, "net/url", "PathEscape") {
 			return "*", true
 		}
+		if g := x.Common().StaticCallee(); g != nil && smallHelper(g) {
+			sub := map[*ssa.Parameter]ssa.Value{}
+			for i, prm := range g.Params {
+				if i < len(x.Common().Args) {
+					sub[prm] = x.Common().Args[i]
+				}
+			}
+			for _, rv := range returnsOf(g) {
+				if t, ok := nameTemplateEnv(rv, depth+1, sub); ok {
+					return t, true
+				}
+			}
+		}
 		return "", false
 	case *ssa.BinOp:
 		if x.Op != token.ADD {
 			return "", false
 		}
-		l, ok := nameTemplate(x.X, depth+1)
+		l, ok := nameTemplateEnv(x.X, depth+1, env)
 		if !ok {
 			return "", false
 		}
 		if strings.Contains(l, "=") {
 			return l, true
 		}
-		rr, ok := nameTemplate(x.Y, depth+1)
+		rr, ok := nameTemplateEnv(x.Y, depth+1, env)
 		if !ok {
 			return l, true
 		}
 		return l + rr, true
 	case *ssa.Slice:
-		return nameTemplate(x.X, depth+1)
+		return nameTemplateEnv(x.X, depth+1, env)
 	case *ssa.Phi:
 		for i, e := range x.Edges {
 			if !x.Block().Dominates(x.Block().Preds[i]) {
-				return nameTemplate(e, depth+1)
+				return nameTemplateEnv(e, depth+1, env)
 			}
 		}
 	}
@@ -568,9 +643,28 @@ func checkC08Names(p *Prog, r *Report, f, ns *ssa.Function) []emission {
 
 // ---------------------------------------------------------------------------
 
+// stringHelpers: the small unexported functions URL.String calls directly.
+func stringHelpers(f *ssa.Function) []*ssa.Function {
+	var out []*ssa.Function
+	seen := map[*ssa.Function]bool{}
+	eachInstr(f, func(ins ssa.Instruction) {
+		if c, ok := ins.(*ssa.Call); ok {
+			if g := c.Common().StaticCallee(); g != nil && smallHelper(g) && g.Blocks != nil && !seen[g] {
+				seen[g] = true
+				out = append(out, g)
+			}
+		}
+	})
+	return out
+}
+
 func checkC08Items(p *Prog, r *Report, f *ssa.Function) {
 	n := 0
-	for _, ld := range findLoops(f) {
+	var loops []*loopDesc
+	for _, g := range append([]*ssa.Function{f}, stringHelpers(f)...) {
+		loops = append(loops, findLoops(g)...)
+	}
+	for _, ld := range loops {
 		if ld.kind != "slice" && ld.kind != "map" {
 			continue
 		}
@@ -679,87 +773,138 @@ func checkC08Guards(p *Prog, r *Report, f *ssa.Function, ems []emission) {
 
 func checkC08Trim(p *Prog, r *Report, f *ssa.Function) {
 	n := 0
-	eachInstr(f, func(ins ssa.Instruction) {
-		sl, ok := ins.(*ssa.Slice)
-		if !ok || sl.Low != nil || sl.High == nil {
-			return
-		}
-		if bt, isB := sl.X.Type().Underlying().(*types.Basic); !isB || bt.Info()&types.IsString == 0 {
-			return
-		}
-		bo, ok := sl.High.(*ssa.BinOp)
-		if !ok || bo.Op != token.SUB {
-			return
-		}
-		k, ok := constInt(bo.Y)
-		if !ok {
-			return
-		}
-		phi, ok := sl.X.(*ssa.Phi)
-		if !ok {
-			return
-		}
-		n++
-		name := phi.Comment
-		// the loop and its source
-		var ld *loopDesc
-		for _, cand := range findLoops(f) {
-			if cand.header == phi.Block() {
-				ld = cand
+	type site struct {
+		fn   *ssa.Function
+		call *ssa.Call // the call of fn in String when fn is a helper
+	}
+	sites := []site{{f, nil}}
+	for _, g := range stringHelpers(f) {
+		eachInstr(f, func(ins ssa.Instruction) {
+			if c, ok := ins.(*ssa.Call); ok && c.Common().StaticCallee() == g {
+				sites = append(sites, site{g, c})
+			}
+		})
+	}
+	for _, st := range sites {
+		fn := st.fn
+		env := map[*ssa.Parameter]ssa.Value{}
+		if st.call != nil {
+			for i, prm := range fn.Params {
+				if i < len(st.call.Common().Args) {
+					env[prm] = st.call.Common().Args[i]
+				}
 			}
 		}
-		key := fmt.Sprintf("String:%s[:len-%d]", name, k)
-		if ld == nil {
-			r.bad("C08.separator-trim", key, p.pos(sl.Pos()), "the trimmed text is not a loop accumulator")
-			return
-		}
-		// separator appended per iteration has k characters
-		sepOK := false
-		for i, e := range phi.Edges {
-			if !ld.blocks[ld.header.Preds[i]] {
-				continue
+		eachInstr(fn, func(ins ssa.Instruction) {
+			sl, ok := ins.(*ssa.Slice)
+			if !ok || sl.Low != nil || sl.High == nil {
+				return
 			}
-			if add, ok := e.(*ssa.BinOp); ok && add.Op == token.ADD {
-				tail := add.Y
-				for {
-					if t2, ok := tail.(*ssa.BinOp); ok && t2.Op == token.ADD {
-						tail = t2.Y
-						continue
+			if bt, isB := sl.X.Type().Underlying().(*types.Basic); !isB || bt.Info()&types.IsString == 0 {
+				return
+			}
+			bo, ok := sl.High.(*ssa.BinOp)
+			if !ok || bo.Op != token.SUB {
+				return
+			}
+			k, ok := constInt(bo.Y)
+			if !ok {
+				return
+			}
+			phi, ok := sl.X.(*ssa.Phi)
+			if !ok {
+				return
+			}
+			n++
+			var ld *loopDesc
+			for _, cand := range findLoops(fn) {
+				if cand.header == phi.Block() {
+					ld = cand
+				}
+			}
+			// what is being trimmed, named after the text the accumulator starts with
+			// (the parameter it builds), wherever the loop lives
+			var initV ssa.Value
+			if ld != nil {
+				for i, e := range phi.Edges {
+					if !ld.blocks[ld.header.Preds[i]] {
+						initV = e
 					}
-					break
-				}
-				if s, ok := constString(tail); ok && int64(len(s)) == k {
-					sepOK = true
 				}
 			}
-		}
-		// zero iterations
-		init, _ := leftmostConstWhole(phi, ld)
-		zeroOK := init != nil && int64(len(*init)) == k
-		if !zeroOK && ld.src != nil {
-			// a dominating "len(source) > 0"
-			want := pathOf(ld.src, 0)
-			for _, ef := range expandFacts(factsAt(ld.header)) {
-				b2, ok := ef.Cond.(*ssa.BinOp)
-				if !ok || !ef.Truth || b2.Op != token.GTR {
+			label := phi.Comment
+			if initV != nil {
+				if t, ok := nameTemplateEnv(initV, 0, env); ok && t != "" {
+					label = t
+				}
+			}
+			key := fmt.Sprintf("String:%s[:len-%d]", label, k)
+			if ld == nil {
+				r.bad("C08.separator-trim", key, p.pos(sl.Pos()), "the trimmed text is not a loop accumulator")
+				return
+			}
+			// separator appended per iteration has k characters
+			sepOK := false
+			for i, e := range phi.Edges {
+				if !ld.blocks[ld.header.Preds[i]] {
 					continue
 				}
-				if c, _ := callOf(b2.X); c != nil && builtinName(c.Common()) == "len" && pathOf(c.Common().Args[0], 0) == want {
-					if z, ok := constInt(b2.Y); ok && z == 0 {
-						zeroOK = true
+				if add, ok := e.(*ssa.BinOp); ok && add.Op == token.ADD {
+					tail := add.Y
+					for {
+						if t2, ok := tail.(*ssa.BinOp); ok && t2.Op == token.ADD {
+							tail = t2.Y
+							continue
+						}
+						break
+					}
+					if s, ok := constString(tail); ok && int64(len(s)) == k {
+						sepOK = true
 					}
 				}
 			}
-		}
-		switch {
-		case !sepOK:
-			r.bad("C08.separator-trim", key, p.pos(sl.Pos()), fmt.Sprintf("the loop does not end each item with a %d-character separator", k))
-		case !zeroOK:
-			r.bad("C08.separator-trim", key, p.pos(sl.Pos()), fmt.Sprintf("when the list is empty the trim removes the last %d characters of the parameter's own prefix: a damaged parameter is emitted (e.g. fields%%5Btype%% for a type without fields), which does not parse back", k))
-		default:
-			r.ok("C08.separator-trim", key, p.pos(sl.Pos()), "separator length matches and the empty case is sound")
-		}
-	})
+			// zero iterations: the initial text has exactly k characters, or the
+			// list is known non-empty (in the loop's function, or at the call site)
+			zeroOK := false
+			iv := initV
+			if prm, isP := iv.(*ssa.Parameter); isP && env[prm] != nil {
+				iv = env[prm]
+			}
+			if s0, ok := constString(iv); ok && int64(len(s0)) == k {
+				zeroOK = true
+			}
+			nonEmpty := func(list ssa.Value, at *ssa.BasicBlock) bool {
+				want := pathOf(list, 0)
+				for _, ef := range expandFacts(factsAt(at)) {
+					b2, ok := ef.Cond.(*ssa.BinOp)
+					if !ok || !ef.Truth || b2.Op != token.GTR {
+						continue
+					}
+					if c, _ := callOf(b2.X); c != nil && builtinName(c.Common()) == "len" && pathOf(c.Common().Args[0], 0) == want {
+						if z, ok := constInt(b2.Y); ok && z == 0 {
+							return true
+						}
+					}
+				}
+				return false
+			}
+			if !zeroOK && ld.src != nil {
+				if nonEmpty(ld.src, ld.header) {
+					zeroOK = true
+				} else if prm, isP := ld.src.(*ssa.Parameter); isP && env[prm] != nil && st.call != nil {
+					zeroOK = nonEmpty(env[prm], st.call.Block())
+				}
+			}
+			switch {
+			case !sepOK:
+				r.bad("C08.separator-trim", key, p.pos(sl.Pos()), fmt.Sprintf("the loop does not end each item with a %d-character separator", k))
+			case !zeroOK:
+				r.bad("C08.separator-trim", key, p.pos(sl.Pos()), fmt.Sprintf("when the list is empty the trim removes the last %d characters of the parameter's own prefix: a damaged parameter is emitted (e.g. fields%%5Btype%% for a type without fields), which does not parse back", k))
+			default:
+				r.ok("C08.separator-trim", key, p.pos(sl.Pos()), "separator length matches and the empty case is sound")
+			}
+		})
+	}
 	r.floor("separator trims in URL.String", n, 1)
 }
 
@@ -995,7 +1140,47 @@ func checkToManyEmission(p *Prog, r *Report, prefix string) {
 		n++
 		all, skip := accumulatorsSkippable(ld)
 		good := len(all) > 0 && len(skip) == 0
+		if len(all) == 0 {
+			// the list may be preallocated with the length of the ID list and filled by index
+			good = indexFilled(ld) != nil
+		}
 		r.decide(good, prefix+".to-many-emission", "MarshalResource:ids-loop", p.pos(loopPos(ld)), "one identifier per element of the ID list", "an element of a to-many relationship's ID list can be passed over when its identifiers are written: the linkage emitted is not the list of IDs the resource holds")
 	}
 	r.floor("to-many emission loops in MarshalResource", n, 1)
+}
+
+// indexFilled: the loop stores out[i] for its own index i on every iteration,
+// where out was made with the length of the list the loop ranges over.
+// Returns the slice made, or nil.
+func indexFilled(ld *loopDesc) *ssa.MakeSlice {
+	for b := range ld.blocks {
+		for _, ins := range b.Instrs {
+			st, ok := ins.(*ssa.Store)
+			if !ok {
+				continue
+			}
+			ia, ok := st.Addr.(*ssa.IndexAddr)
+			if !ok || ia.Index != ld.idx {
+				continue
+			}
+			ms, ok := ia.X.(*ssa.MakeSlice)
+			if !ok {
+				continue
+			}
+			lc, _ := callOf(ms.Len)
+			if lc == nil || builtinName(lc.Common()) != "len" || (lc.Common().Args[0] != ld.src && pathOf(lc.Common().Args[0], 0) != pathOf(ld.src, 0)) {
+				continue
+			}
+			dom := true
+			for _, pb := range ld.header.Preds {
+				if ld.blocks[pb] && !b.Dominates(pb) {
+					dom = false
+				}
+			}
+			if dom {
+				return ms
+			}
+		}
+	}
+	return nil
 }
